@@ -1326,3 +1326,134 @@ def savetxt(*a, **k):
 
 def fromfile(*a, **k):
     raise Unsupported("np.fromfile")
+
+
+# ---------------------------------------------------------------------------
+# further numpy functions (not used by the pinned tree; present so that small
+# refactorings of the code under test stay inside the encodable subset)
+
+def full_like(a, fill_value, dtype=None):
+    a = asarray(a)
+    out = SymArr([fill_value] * len(a._idx), dtype=dtype or (float64 if isinstance(fill_value, float) else a.dtype))
+    if a.present is not None:
+        out.present = list(a.present)
+    return out
+
+
+def clip(a, lo, hi):
+    f = lambda x: x if is_nan(x) else (sym_ite(x < lo, lo, sym_ite(x > hi, hi, x)))
+    return a._unop(f) if isinstance(a, SymArr) else f(_conc(a))
+
+
+def square(x):
+    return x * x
+
+
+def power(x, p):
+    return x ** p
+
+
+def count_nonzero(x):
+    return asarray(x).astype(bool_).sum()
+
+
+def flatnonzero(x):
+    return where(asarray(x).astype(bool_))[0]
+
+
+def nonzero(x):
+    return where(asarray(x).astype(bool_))
+
+
+def array_equal(a, b, equal_nan=False):
+    a, b = asarray(a), asarray(b)
+    a._need_dense("array_equal")
+    b._need_dense("array_equal")
+    if len(a._idx) != len(b._idx):
+        return False
+    acc = True
+    for x, y in zip(a.elems, b.elems):
+        if is_nan(x) or is_nan(y):
+            c = equal_nan and is_nan(x) and is_nan(y)
+        else:
+            c = _eq(x, y)
+        acc = _and(acc, c)
+    return acc
+
+
+def isclose(a, b, rtol=1e-05, atol=1e-08, equal_nan=False):
+    f = lambda x, y: ((equal_nan and is_nan(x) and is_nan(y)) if (is_nan(x) or is_nan(y)) else
+                      (sym_abs(_sub(x, y)) <= _add(nice_fraction(atol), _mul(nice_fraction(rtol), sym_abs(y)))))
+    if isinstance(a, SymArr):
+        return a._binop(b, f, bool_)
+    if isinstance(b, SymArr):
+        return b._binop(a, lambda y, x: f(x, y), bool_)
+    return f(_conc(a), _conc(b))
+
+
+def flip(a, axis=None):
+    return asarray(a)[::-1]
+
+
+def append(a, v):
+    a = asarray(a)
+    a._need_dense("append")
+    extra = asarray(v).elems if isinstance(v, (SymArr, list, tuple)) else [v]
+    return SymArr(a.elems + list(extra))
+
+
+def hstack(arrs):
+    return concatenate(arrs)
+
+
+def cumsum(a):
+    a = asarray(a)
+    a._need_dense("cumsum")
+    out, tot = [], 0
+    for e in a.elems:
+        tot = _add(tot, e)
+        out.append(tot)
+    return SymArr(out)
+
+
+def prod(a):
+    a = asarray(a)
+    a._need_dense("prod")
+    tot = 1
+    for e in a.elems:
+        tot = _mul(tot, e)
+    return tot
+
+
+def dot(a, b):
+    return (asarray(a) * asarray(b)).sum()
+
+
+def nanmean(a):
+    a = asarray(a)
+    a._need_dense("nanmean")
+    vals = [e for e in a.elems if not is_nan(e)]
+    if not vals:
+        return float("nan")
+    return SymArr(vals).mean()
+
+
+def median(a):
+    from .symscipy import _median
+    a = asarray(a)
+    a._need_dense("median")
+    e = a.elems
+    if not e:
+        return float("nan")
+    if len(e) % 2 == 1:
+        return _median(list(e))
+    raise Unsupported("median of an even number of symbolic samples")
+
+
+def floor(x):
+    return x._unop(core.sym_floor) if isinstance(x, SymArr) else core.sym_floor(_conc(x))
+
+
+def exp(x):
+    f = lambda v: (v if is_nan(v) else core.sym_fun("exp", v, lambda r, a: r > 0))
+    return x._unop(f, float64) if isinstance(x, SymArr) else f(_conc(x))
